@@ -498,7 +498,7 @@ def fixture_oracle(ctx, env, sc, race_bin, stats):
     def rone(cfg):
         pats, fmt, gp, ys = cfg
         return env.run(race_bin, pats, fmt=fmt, gomaxprocs=gp, yseed=ys or None, timeout=max(600.0, 20 * tmo))
-    rres = vlib.pmap(rone, rconfigs, workers=4)
+    rres = vlib.pmap(rone, rconfigs, workers=4) if race_bin else []
     stats["race_runs"] = len(rres)
     for r in rres:
         if "WARNING: DATA RACE" in r["err"] or r["rc"] == 66:
@@ -549,10 +549,13 @@ def run(ctx):
         return replay(ctx)
     t0 = time.time()
     stats = {}
+    # VERIF_SKIP=tlc,race (development only: mutation trials on a scratch worktree) leaves out the exhaustive TLC
+    # runs / the -race build; the evidence then says so and the run must not be used for registration
+    skip = set(x for x in os.environ.get("VERIF_SKIP", "").split(",") if x)
     # builds first (the slowest part is independent of TLC)
     sc = vlib.go_build_repo(ctx, "./cmd/staticcheck", tags="verif")
     helper = vlib.go_build_harness(ctx, "cmd/h-runner")
-    race_bin = vlib.go_build_repo(ctx, "./cmd/staticcheck", tags="verif", race=True)
+    race_bin = None if "race" in skip else vlib.go_build_repo(ctx, "./cmd/staticcheck", tags="verif", race=True)
     stats["build_wall_s"] = round(time.time() - t0, 1)
 
     import threading
@@ -561,6 +564,9 @@ def run(ctx):
 
     def bg():
         try:
+            if "tlc" in skip:
+                tlc_out["skipped"] = {"states": 0, "transitions": 0, "wall_s": 0}
+                return
             tlc_out.update(tlc_exhaustive(ctx))
         except Exception as e:   # re-raised in the main thread
             tlc_err.append(e)
@@ -599,6 +605,7 @@ def run(ctx):
         "pattern_lists": stats.get("pattern_lists", 0),
         "race_runs": stats.get("race_runs", 0),
         "negative_selftests": nneg,
+        "skipped": sorted(skip),
         "drift": stats.get("drift", []),
         "baseline_wall_s": stats.get("baseline_wall_s"),
         "samples": [
